@@ -50,28 +50,28 @@ CLAIMS = {
     "C01": {
         "category": "proof",
         "design_ref": 'DESIGN.md §5 C01',
-        "text": "FULL for strings up to a per-program decidable check; PARTIAL for matrices and port graphs. STRINGS: c01_c02_string_checked (Props/TRunStr.lean) proves, for every string pattern list, every event log (heuristic answers and hash orders), every fuel and EVERY host: the matcher reports (i, m) iff the i-th pattern is empty and m is the unbound map, or it occurs at some anchor a and m = bound a |p| — soundness, completeness and the match data in one iff — for every build that passes the decidable per-program condition strProgramOK (scope/key-list shapes; evaluated by the driver on the DUMP of every string automaton built: all of >20 000 pass). It composes T-BUILD (build_acc, all logs), the anchored traversal theorem trun_str (for ALL hosts: run = anchored acceptance, pruning lossless), T-DOM (tdom_str_sat_iff) and c06_ids_are_positions. Removing the per-program condition (strProgramOK for every built automaton) is in progress. MATRICES: T-BUILD, T-DOM (tdom_mat_sat_iff, after the F2 fix; tdom_mat_old_unsound shows the pinned conversion violated C01) and T-RUN-SOUND are proved; the anchored traversal theorem for matrices (trun_mat) is in progress. PORT GRAPHS: T-RUN-SOUND + T-BUILD + single-constraint semantics (tpg_connected_link, tpg_notequal); the composition is not proved. Decided per run for the automata actually built and the hosts generated by: exact replay of every build (model = code, state ids and edge ids included), model traversal on the dumped automaton, and the executable occurrence oracle evaluated on the implementation's own matches. Port graphs: the reported node map, read through the keys constraint_vec assigns, must be an injective link-preserving embedding (checked, not searched).",
+        "text": "FULL for strings and matrices up to a per-program decidable check; PARTIAL for port graphs. STRINGS: c01_c02_string_checked (Props/TRunStr.lean) proves, for every string pattern list, every event log (heuristic answers and hash orders), every fuel and EVERY host: the matcher reports (i, m) iff the i-th pattern is empty and m is the unbound map, or it occurs at some anchor a and m = bound a |p| — soundness, completeness and the match data in one iff — for every build that passes the decidable per-program condition strProgramOK (scope/key-list shapes; evaluated by the driver on the DUMP of every string automaton built: all of >20 000 pass). It composes T-BUILD (build_acc, all logs), the anchored traversal theorem trun_str (for ALL hosts: run = anchored acceptance, pruning lossless), T-DOM (tdom_str_sat_iff) and c06_ids_are_positions. Removing the per-program condition (strProgramOK for every built automaton) is in progress. MATRICES: the same end-to-end iff, c01_c02_matrix_checked (Props/TRunMat.lean): (i, m) is reported iff the i-th pattern occurs at some existing anchor cell (r,c) (occursMat: every literal and variable cell on an existing host character, ragged hosts included) and m is the bounding box of the pattern at (r,c) — for every event log, fuel and host, for builds passing the decidable matProgramOK (evaluated on every dumped matrix automaton; all of >15 000 pass). Its traversal half trun_mat needed the extra fact that an accepting path witnesses its recorded keys (trun_mat_needs_witness shows the naive statement is false for arbitrary programs because a bounding-box map answers for cells that do not exist); for built automata it is discharged by T-BUILD (trun_mat_built_witnessed). tdom_mat_old_unsound: the pinned matrix conversion violated C01 (F2, repaired). PORT GRAPHS: T-RUN-SOUND + T-BUILD + single-constraint semantics (tpg_connected_link, tpg_notequal); the composition is not proved. Decided per run for the automata actually built and the hosts generated by: exact replay of every build (model = code, state ids and edge ids included), model traversal on the dumped automaton, and the executable occurrence oracle evaluated on the implementation's own matches. Port graphs: the reported node map, read through the keys constraint_vec assigns, must be an injective link-preserving embedding (checked, not searched).",
         "note": NOTE_COMMON + "Hash-iteration order is an explicit, logged and replayed choice sequence; FxHasher in visit() is modelled as injective; usize as Nat.",
         "technique": TECH,
     },
     "C02": {
         "category": "proof",
         "design_ref": 'DESIGN.md §5 C02, §4 F3',
-        "text": "FULL for strings up to a per-program decidable check; PARTIAL for matrices and port graphs. STRINGS: c01_c02_string_checked (Props/TRunStr.lean) proves, for every string pattern list, every event log (heuristic answers and hash orders), every fuel and EVERY host: the matcher reports (i, m) iff the i-th pattern is empty and m is the unbound map, or it occurs at some anchor a and m = bound a |p| — soundness, completeness and the match data in one iff — for every build that passes the decidable per-program condition strProgramOK (scope/key-list shapes; evaluated by the driver on the DUMP of every string automaton built: all of >20 000 pass). It composes T-BUILD (build_acc, all logs), the anchored traversal theorem trun_str (for ALL hosts: run = anchored acceptance, pruning lossless), T-DOM (tdom_str_sat_iff) and c06_ids_are_positions. Removing the per-program condition (strProgramOK for every built automaton) is in progress. MATRICES: as C01 (trun_mat in progress; BFS closure trun_closed and T-DOM completeness halves proved). PORT GRAPHS: target c02_pg_target on the complement of the known-finding signature; decided by brute-force embedding search in Lean (independent of the indexing scheme); a miss counts as the known finding F3b only if the pattern carries the signature pg:multiRoot AND the model (which reproduces the pinned secondary-root search) misses the same occurrence; F3a was repaired (fix: commit). Decided per run for the automata actually built and the hosts generated by: exact replay of every build (model = code, state ids and edge ids included), model traversal on the dumped automaton, and the executable occurrence oracle evaluated on the implementation's own matches. ",
+        "text": "FULL for strings and matrices up to a per-program decidable check; PARTIAL for port graphs. STRINGS: c01_c02_string_checked (Props/TRunStr.lean) proves, for every string pattern list, every event log (heuristic answers and hash orders), every fuel and EVERY host: the matcher reports (i, m) iff the i-th pattern is empty and m is the unbound map, or it occurs at some anchor a and m = bound a |p| — soundness, completeness and the match data in one iff — for every build that passes the decidable per-program condition strProgramOK (scope/key-list shapes; evaluated by the driver on the DUMP of every string automaton built: all of >20 000 pass). It composes T-BUILD (build_acc, all logs), the anchored traversal theorem trun_str (for ALL hosts: run = anchored acceptance, pruning lossless), T-DOM (tdom_str_sat_iff) and c06_ids_are_positions. Removing the per-program condition (strProgramOK for every built automaton) is in progress. MATRICES: as C01 — c01_c02_matrix_checked is an iff, so completeness is included (up to the per-program check matProgramOK). PORT GRAPHS: target c02_pg_target on the complement of the known-finding signature; decided by brute-force embedding search in Lean (independent of the indexing scheme); a miss counts as the known finding F3b only if the pattern carries the signature pg:multiRoot AND the model (which reproduces the pinned secondary-root search) misses the same occurrence; F3a was repaired (fix: commit). Decided per run for the automata actually built and the hosts generated by: exact replay of every build (model = code, state ids and edge ids included), model traversal on the dumped automaton, and the executable occurrence oracle evaluated on the implementation's own matches. ",
         "note": NOTE_COMMON + "Hash-iteration order is an explicit, logged and replayed choice sequence; FxHasher in visit() is modelled as injective; usize as Nat.",
         "technique": TECH,
     },
     "C03": {
         "category": "proof",
         "design_ref": 'DESIGN.md §5 C03, §4 F4',
-        "text": "Builder half FULL: T-BUILD (Props/TBuild.lean build_acc, restated as c03_prop) proves for EVERY pattern list, EVERY event log (all hash-iteration orders and all heuristic answers at once) and every truth assignment under which the tree decomposition is faithful (c03_treeOK_char: every assignment for the string/matrix decomposition; table strategies 0-2 likewise; port graphs under the conditioning law, tpg_tree_faithful) that acceptance from the root of the built automaton, in the reading the traversal implements, is exactly 'some pattern with that id has all its constraints true' (7.2k lines; also build_detOK, build_ordersOK, build_acyclic; build_acc_unguarded_counterexample shows why the model carries the make_det guard; c03_guarded_is_real ties the guarded build to the lenient one that is replayed). Baseline half FULL: T-SINGLE (tsingle_eq/_exact/_mem/_sound/_complete, tnaive_ids). Traversal half: T-RUN-SOUND + BFS closure for every automaton (trun_sound, trun_closed); HOST LEVEL FULL for strings up to a per-program decidable check: c01_c02_string_checked (automaton = occurrences, all hosts, all logs; needs strProgramOK of the built automaton, evaluated on every dump) composed with c05_string (baseline = occurrences, exact list) gives automaton = baseline as sets with identical match data; removing the per-program check and the matrix analogue (trun_mat) are in progress; port graphs and the table domain are decided by the oracle. Decided per run for the automata actually built and the hosts generated by: exact replay of every build (model = code, state ids and edge ids included), model traversal on the dumped automaton, and the executable occurrence oracle evaluated on the implementation's own matches. Four-way comparison per record: real ManyMatcher vs real NaiveManyMatcher (the C03 oracle, per pattern id, full match data) vs model traversal vs model baseline; string, matrix, port-graph and table domain (5 tree strategies). Builds on which the make_det guard fires (a constraint child already deterministic: ~1 in 5000 real builds) are outside T-BUILD: they are flagged and a window search (all hosts up to length 6 over the pattern alphabet) looks for a failing host. F4 was found by this check and repaired; known finding F5 (baseline ignores Pattern::required_bindings) is reported by signature.",
+        "text": "Builder half FULL: T-BUILD (Props/TBuild.lean build_acc, restated as c03_prop) proves for EVERY pattern list, EVERY event log (all hash-iteration orders and all heuristic answers at once) and every truth assignment under which the tree decomposition is faithful (c03_treeOK_char: every assignment for the string/matrix decomposition; table strategies 0-2 likewise; port graphs under the conditioning law, tpg_tree_faithful) that acceptance from the root of the built automaton, in the reading the traversal implements, is exactly 'some pattern with that id has all its constraints true' (7.2k lines; also build_detOK, build_ordersOK, build_acyclic; build_acc_unguarded_counterexample shows why the model carries the make_det guard; c03_guarded_is_real ties the guarded build to the lenient one that is replayed). Baseline half FULL: T-SINGLE (tsingle_eq/_exact/_mem/_sound/_complete, tnaive_ids). Traversal half: T-RUN-SOUND + BFS closure for every automaton (trun_sound, trun_closed); HOST LEVEL FULL for strings up to a per-program decidable check: c01_c02_string_checked (automaton = occurrences, all hosts, all logs; needs strProgramOK of the built automaton, evaluated on every dump) composed with c05_string (baseline = occurrences, exact list) gives automaton = baseline as sets with identical match data; the same for matrices (c01_c02_matrix_checked with c05_matrix); removing the per-program checks is in progress; port graphs and the table domain are decided by the oracle. Decided per run for the automata actually built and the hosts generated by: exact replay of every build (model = code, state ids and edge ids included), model traversal on the dumped automaton, and the executable occurrence oracle evaluated on the implementation's own matches. Four-way comparison per record: real ManyMatcher vs real NaiveManyMatcher (the C03 oracle, per pattern id, full match data) vs model traversal vs model baseline; string, matrix, port-graph and table domain (5 tree strategies). Builds on which the make_det guard fires (a constraint child already deterministic: ~1 in 5000 real builds) are outside T-BUILD: they are flagged and a window search (all hosts up to length 6 over the pattern alphabet) looks for a failing host. F4 was found by this check and repaired; known finding F5 (baseline ignores Pattern::required_bindings) is reported by signature.",
         "note": NOTE_COMMON + "Hash-iteration order is an explicit, logged and replayed choice sequence; FxHasher in visit() is modelled as injective; usize as Nat.",
         "technique": TECH,
     },
     "C04": {
         "category": "proof",
         "design_ref": 'DESIGN.md §5 C04',
-        "text": "Propositional level FULL: c04_prop — two builds of the same patterns under ANY two event logs accept exactly the same pattern ids under every truth assignment (corollary of T-BUILD). Host level FULL for strings up to the per-program check: c04_string_checked — two builds of the same string patterns under any two event logs and fuels report the same SET of matches on every host (both builds passing strProgramOK, which the driver evaluates on every dump). Multiplicity (the 'not even their multiplicity' clause) needs C07 and is decided by the oracle. Matrices: in progress (trun_mat). Decided per run for the automata actually built and the hosts generated by: exact replay of every build (model = code, state ids and edge ids included), model traversal on the dumped automaton, and the executable occurrence oracle evaluated on the implementation's own matches. The check enumerates ALL 2^m answer strings when a build asks m <= 5 (quick) / 9 (thorough) questions, replays each build exactly and compares the match multisets (strings, matrices) resp. sets (table, port graphs) across all variants in Lean (HSUM records).",
+        "text": "Propositional level FULL: c04_prop — two builds of the same patterns under ANY two event logs accept exactly the same pattern ids under every truth assignment (corollary of T-BUILD). Host level FULL for strings up to the per-program check: c04_string_checked — two builds of the same string patterns under any two event logs and fuels report the same SET of matches on every host (both builds passing strProgramOK, which the driver evaluates on every dump). Multiplicity (the 'not even their multiplicity' clause) needs C07 and is decided by the oracle. Matrices: c04_matrix_checked, same strength. Decided per run for the automata actually built and the hosts generated by: exact replay of every build (model = code, state ids and edge ids included), model traversal on the dumped automaton, and the executable occurrence oracle evaluated on the implementation's own matches. The check enumerates ALL 2^m answer strings when a build asks m <= 5 (quick) / 9 (thorough) questions, replays each build exactly and compares the match multisets (strings, matrices) resp. sets (table, port graphs) across all variants in Lean (HSUM records).",
         "note": NOTE_COMMON + "Hash-iteration order is an explicit, logged and replayed choice sequence; FxHasher in visit() is modelled as injective; usize as Nat.",
         "technique": TECH,
     },
@@ -85,7 +85,7 @@ CLAIMS = {
     "C06": {
         "category": "proof",
         "design_ref": 'DESIGN.md §5 C06',
-        "text": "Construction-level clauses FULL (Props/C06.lean): c06_ids_are_positions, c06_fail_iff, c06_skip_total, c06_get_pattern. Semantic clause FULL at the propositional level (c06_prop, c06_skipped_not_accepted: corollaries of T-BUILD) and at the host level for strings up to the per-program check: c06_string_checked — the matches labelled i depend only on the i-th pattern, whatever else is compiled with it, in whatever order, under whatever log. Matrices in progress; port graphs by oracle. Decided per run for the automata actually built and the hosts generated by: exact replay of every build (model = code, state ids and edge ids included), model traversal on the dumped automaton, and the executable occurrence oracle evaluated on the implementation's own matches. Variants whole / alone / permuted / sub-multiset with duplicates are compared per original pattern in Lean (SSUM records); get_pattern must return the pattern at that input position; port-graph sets contain root-less (non-convertible) patterns under both fallback modes.",
+        "text": "Construction-level clauses FULL (Props/C06.lean): c06_ids_are_positions, c06_fail_iff, c06_skip_total, c06_get_pattern. Semantic clause FULL at the propositional level (c06_prop, c06_skipped_not_accepted: corollaries of T-BUILD) and at the host level for strings up to the per-program check: c06_string_checked — the matches labelled i depend only on the i-th pattern, whatever else is compiled with it, in whatever order, under whatever log. Matrices: c06_matrix_checked, same strength; port graphs by oracle. Decided per run for the automata actually built and the hosts generated by: exact replay of every build (model = code, state ids and edge ids included), model traversal on the dumped automaton, and the executable occurrence oracle evaluated on the implementation's own matches. Variants whole / alone / permuted / sub-multiset with duplicates are compared per original pattern in Lean (SSUM records); get_pattern must return the pattern at that input position; port-graph sets contain root-less (non-convertible) patterns under both fallback modes.",
         "note": NOTE_COMMON + "Hash-iteration order is an explicit, logged and replayed choice sequence; FxHasher in visit() is modelled as injective; usize as Nat.",
         "technique": TECH,
     },
